@@ -8,6 +8,9 @@ import (
 	"github.com/enbility/spine-go/model"
 )
 
+// serializes the copy-modify-store cycles on the shared use case data
+var useCaseMux sync.Mutex
+
 type EntityLocal struct {
 	*Entity
 	device   api.DeviceLocalInterface
@@ -133,6 +136,9 @@ func (r *EntityLocal) AddUseCaseSupport(
 	useCaseAvailable bool,
 	scenarios []model.UseCaseScenarioSupportType,
 ) {
+	useCaseMux.Lock()
+	defer useCaseMux.Unlock()
+
 	nodeMgmt := r.device.NodeManagement()
 
 	data, err := LocalFeatureDataCopyOfType[*model.NodeManagementUseCaseDataType](nodeMgmt, model.FunctionTypeNodeManagementUseCaseData)
@@ -173,6 +179,9 @@ func (r *EntityLocal) SetUseCaseAvailability(
 	actor model.UseCaseActorType,
 	useCaseName model.UseCaseNameType,
 	available bool) {
+	useCaseMux.Lock()
+	defer useCaseMux.Unlock()
+
 	nodeMgmt := r.device.NodeManagement()
 
 	data, err := LocalFeatureDataCopyOfType[*model.NodeManagementUseCaseDataType](nodeMgmt, model.FunctionTypeNodeManagementUseCaseData)
@@ -195,6 +204,9 @@ func (r *EntityLocal) RemoveUseCaseSupport(
 	actor model.UseCaseActorType,
 	useCaseName model.UseCaseNameType,
 ) {
+	useCaseMux.Lock()
+	defer useCaseMux.Unlock()
+
 	nodeMgmt := r.device.NodeManagement()
 
 	data, err := LocalFeatureDataCopyOfType[*model.NodeManagementUseCaseDataType](nodeMgmt, model.FunctionTypeNodeManagementUseCaseData)
@@ -214,6 +226,9 @@ func (r *EntityLocal) RemoveUseCaseSupport(
 
 // Remove all usecases
 func (r *EntityLocal) RemoveAllUseCaseSupports() {
+	useCaseMux.Lock()
+	defer useCaseMux.Unlock()
+
 	nodeMgmt := r.device.NodeManagement()
 
 	data, err := LocalFeatureDataCopyOfType[*model.NodeManagementUseCaseDataType](nodeMgmt, model.FunctionTypeNodeManagementUseCaseData)
